@@ -38,6 +38,27 @@ impl HashMap<HeadKey, HeadVal> {
 
     #[verifier::external_body]
     pub fn len(&self) -> (r: usize) ensures r == self@.dom().len() { unimplemented!() }
+
+    /// HashMap::insert: the key maps to the new value, whatever it held before (the old value is returned)
+    #[verifier::external_body]
+    pub fn insert(&mut self, k: HeadKey, v: HeadVal) -> (r: Option<HeadVal>)
+        ensures
+            final(self)@ == old(self)@.insert(head_key_view(k), head_val_view(v)),
+            r is Some <==> old(self)@.contains_key(head_key_view(k)),
+            r is Some ==> head_val_view(r->Some_0) == old(self)@[head_key_view(k)],
+    { unimplemented!() }
+
+    /// HashMap::get
+    #[verifier::external_body]
+    pub fn get(&self, k: &HeadKey) -> (r: Option<&HeadVal>)
+        ensures
+            r is Some <==> self@.contains_key(head_key_view(*k)),
+            r is Some ==> head_val_view(*r->Some_0) == self@[head_key_view(*k)],
+    { unimplemented!() }
+
+    /// HashMap::contains_key
+    #[verifier::external_body]
+    pub fn contains_key(&self, k: &HeadKey) -> (r: bool) ensures r == self@.contains_key(head_key_view(*k)) { unimplemented!() }
 }
 
 impl<'a> Entry<'a, HeadKey, HeadVal> {
